@@ -23,7 +23,22 @@ TARGET = os.path.join(BUILD, "target")
 HARNESS = os.path.join(VERIF, "harness")
 EVIDENCE = os.path.join(VERIF, "evidence")
 REPLAYS = os.path.join(VERIF, "replays")
-REPO = "/repo"
+# the repository under test; KV_REPO lets a scratch copy be checked without touching /repo
+REPO = os.environ.get("KV_REPO", "/repo")
+REPO_LINK = os.path.join(BUILD, "repolink")
+
+
+def link_repo():
+    """harness crates depend on .build/repolink/konst; (re)point the link at REPO."""
+    os.makedirs(BUILD, exist_ok=True)
+    try:
+        if os.path.islink(REPO_LINK) and os.readlink(REPO_LINK) == REPO:
+            return
+        if os.path.islink(REPO_LINK) or os.path.exists(REPO_LINK):
+            os.remove(REPO_LINK)
+        os.symlink(REPO, REPO_LINK)
+    except OSError:
+        pass
 
 FORBIDDEN = re.compile(
     r"\b(Admitted|admit|Axiom|Axioms|Parameter|Parameters|Conjecture|Conjectures|"
@@ -246,9 +261,57 @@ def ensure_driver():
         return True, ""
 
 
+def repo_digest():
+    """content hash of the Rust sources of the repository under test"""
+    import hashlib
+    h = hashlib.sha256()
+    h.update(REPO.encode())
+    for root, dirs, files in os.walk(REPO):
+        dirs[:] = sorted(d for d in dirs if d not in ("target", ".git"))
+        for f in sorted(files):
+            if f.endswith((".rs", ".toml", ".lock")):
+                p = os.path.join(root, f)
+                h.update(p.encode())
+                try:
+                    h.update(open(p, "rb").read())
+                except OSError:
+                    pass
+    return h.hexdigest()
+
+
+def invalidate_if_repo_changed():
+    """cargo decides freshness of path dependencies by mtime; a tree restored with old
+    mtimes (or a re-pointed link) would go unnoticed. Decide by content instead: when the
+    digest differs from the one of the last build, drop konst's build products."""
+    stamp = os.path.join(BUILD, "repo.digest")
+    d = repo_digest()
+    old = open(stamp).read() if os.path.exists(stamp) else ""
+    if d != old:
+        for root in (os.path.join(TARGET, "debug"), os.path.join(TARGET, "release")):
+            for sub in (".fingerprint", "deps"):
+                dd = os.path.join(root, sub)
+                if not os.path.isdir(dd):
+                    continue
+                for f in os.listdir(dd):
+                    if re.match(r"(lib)?konst(_kernel|_proc_macros|_macro_rules)?-", f):
+                        pth = os.path.join(dd, f)
+                        try:
+                            if os.path.isdir(pth):
+                                import shutil
+                                shutil.rmtree(pth)
+                            else:
+                                os.remove(pth)
+                        except OSError:
+                            pass
+        with open(stamp, "w") as f:
+            f.write(d)
+
+
 def ensure_harness(release=False, crate=HARNESS, timeout=1500):
     """(re)build the harness against /repo's working tree."""
     with Lock("cargo.lock"):
+        link_repo()
+        invalidate_if_repo_changed()
         lock_src = os.path.join(REPO, "Cargo.lock")
         lock_dst = os.path.join(crate, "Cargo.lock")
         if os.path.exists(lock_src) and not os.path.exists(lock_dst):
